@@ -327,6 +327,19 @@ func ruleC03Prune(c *Checker) {
 			}
 			c.check(pruned, R, name, "excluded subtree not entered", p.Pos(fn.Pos()), "filepath.SkipDir returned on the Dominating edge", "a directory excluded with everything below it is still walked: a subtree nobody wanted (.git, .terraform) that cannot be read — permissions, a path too long — makes Pack fail although none of it would be shipped")
 		}
+		// filepath.SkipAll ends the whole walk with a success: everything that sorts after the entry is
+		// left out although no rule matches it
+		skipAllAt := token.NoPos
+		for _, r := range returnsOf(fn) {
+			for _, v := range returnValues(r, 0) {
+				if u, ok := v.(*ssa.UnOp); ok && u.Op == token.MUL {
+					if g, ok := u.X.(*ssa.Global); ok && g.Name() == "SkipAll" && g.Pkg != nil && (g.Pkg.Pkg.Path() == "path/filepath" || g.Pkg.Pkg.Path() == "io/fs") {
+						skipAllAt = r.Pos()
+					}
+				}
+			}
+		}
+		c.check(skipAllAt == token.NoPos, R, name, "the walk is never ended early", p.Pos(fn.Pos()), "the callback does not return filepath.SkipAll", "the callback returns filepath.SkipAll at "+p.Pos(skipAllAt)+": filepath.Walk stops there and reports success, so every entry that sorts after this one is missing from the result although no rule excludes it")
 		for _, r := range returnsOf(fn) {
 			for _, v := range returnValues(r, 0) {
 				if v != nil && isSkipDirValue(v) {
